@@ -168,27 +168,36 @@ class PsRecorder:
         rec = self
         state = {"in_get": 0, "last": None}
 
-        def read(self_, domain, siteidx):
-            if not state["in_get"]:
-                rec.events.append(["read", domain, int(siteidx)])
-            return rec.o_read(self_, domain, siteidx)
+        # recorders never interfere: arguments pass through untouched; what cannot be interpreted is "unobserved" (=> SPEC-DRIFT at most)
+        def read(self_, *a, **k):
+            try:
+                if not state["in_get"]:
+                    rec.events.append(["read", a[0], int(a[1])])
+            except Exception:
+                rec.events.append(["unobserved"])
+            return rec.o_read(self_, *a, **k)
 
-        def get(self_, domain, siteidx, *a, **k):
+        def get(self_, *a, **k):
             state["in_get"] += 1
             try:
-                if k.get("method") == "System":
-                    rec.events.append(["sys", domain, int(siteidx)])
-                    state["last"] = "sys"
-                return rec.o_get(self_, domain, siteidx, *a, **k)
+                try:
+                    if k.get("method", a[5] if len(a) > 5 else None) == "System":
+                        rec.events.append(["sys", a[0], int(a[1])])
+                        state["last"] = "sys"
+                except Exception:
+                    rec.events.append(["unobserved"])
+                return rec.o_get(self_, *a, **k)
             finally:
                 state["in_get"] -= 1
 
-        def expm(fn, dt, v, *a, **k):
-            ratio = complex(dt) / (-1j * complex(rec.dt) / 2)
-            sign = "+" if ratio.real > 0 else "-"
-            rec.events.append(["ev0" if state["last"] == "sys" else "ev1", sign])
+        def expm(*a, **k):
+            try:
+                ratio = complex(a[1]) / (-1j * complex(rec.dt) / 2)
+                rec.events.append(["ev0" if state["last"] == "sys" else "ev1", "+" if ratio.real > 0 else "-"])
+            except Exception:
+                rec.events.append(["unobserved"])
             state["last"] = None
-            return rec.o_exp(fn, dt, v, *a, **k)
+            return rec.o_exp(*a, **k)
         Environ.read, Environ.GetLR, mm.expm_krylov = read, get, expm
         return self
 
